@@ -58,10 +58,18 @@ var ruleBounds = &core.Rule{ID: "R01.1", Min: 600,
 		popOK := map[*ssa.Store]bool{}
 		func() {
 			defer func() { recover() }()
+			bad := map[*ssa.Store]bool{}
 			for _, st := range stackAnalysis(c) {
-				if st.store != nil && st.bad == "" && st.undec == "" && strings.Contains(st.key, "pop#") {
-					popOK[st.store] = true
+				if st.store == nil || !(strings.Contains(st.key, "pop#") || strings.Contains(st.key, "stack helper")) {
+					continue
 				}
+				if st.bad != "" || st.undec != "" {
+					bad[st.store] = true
+				}
+				popOK[st.store] = true
+			}
+			for st := range bad {
+				delete(popOK, st)
 			}
 		}()
 		for i, site := range r.Sites {
